@@ -77,3 +77,34 @@ func WideScenario() *Scenario {
 	}
 	return sc
 }
+
+// AllPathsScenario: several goroutines run the same diverse list of read operations (every criteria operator,
+// sorts, windows, index-served and scan-served) with different literals against shared collections, plus document
+// and query construction. Reads do not conflict, so any write to shared library state is a data race.
+func AllPathsScenario() *Scenario {
+	sc := &Scenario{Name: "all-read-paths", Setup: []m.Op{{K: "createColl", Coll: "a"}, {K: "createIndex", Coll: "a", Field: "x"}, {K: "createIndex", Coll: "a", Field: "n.a"}, {K: "insert", Coll: "a", Docs: DefaultDataset()}}}
+	pats := []string{"^a", "b$", "a.", "^ab?$"}
+	for t := 0; t < 4; t++ {
+		v := int64(t)
+		fy := m.FieldRef{Name: "y"}
+		crits := []*m.Crit{
+			m.Like("x", pats[t]), m.Like("y", pats[(t+1)%4]), m.Leaf("eq", "x", v), m.Leaf("neq", "x", v), m.Leaf("gt", "x", v), m.Leaf("lte", "x", float64(t)+0.5),
+			m.In("x", v, "a", nil), m.Contains("y", v, "a"), m.Exists("n.a"), m.NotExists("x"), m.Func("hasX"), m.Leaf("gt", "x", fy), m.Leaf("eq", "x", "$y"),
+			m.And(m.Leaf("gte", "x", v), m.Leaf("lt", "x", "ab")), m.Or(m.Like("x", pats[t]), m.Leaf("eq", "n.a", v)), m.Not(m.In("x", v)),
+			m.Leaf("eq", "x", map[string]interface{}{"k": v}), m.Leaf("gte", "x", []interface{}{v}),
+		}
+		ops := []m.Op{}
+		for i, c := range crits {
+			q := &m.Q{Coll: "a", Crit: c}
+			ops = append(ops, m.Op{K: "findAll", Q: q}, m.Op{K: "count", Q: q})
+			if i%3 == 0 {
+				ops = append(ops, m.Op{K: "findAll", Q: &m.Q{Coll: "a", Crit: c, Sort: []m.SortOpt{{Field: "x", Dir: 1 - 2*(t%2)}, {Field: "y", Dir: 1}}, SkipSet: true, Skip: 1, LimitSet: true, Limit: 3}},
+					m.Op{K: "exists", Q: q}, m.Op{K: "findFirst", Q: q}, m.Op{K: "forEach", Q: q, Stop: 2})
+			}
+		}
+		ops = append(ops, m.Op{K: "findById", Coll: "a", Id: ID(t + 1)}, m.Op{K: "listColls"}, m.Op{K: "listIndexes", Coll: "a"}, m.Op{K: "hasIndex", Coll: "a", Field: "x"},
+			m.Op{K: "export", Coll: "a", Text: drv.WriteTemp(fmt.Sprintf("race-export-%d.json", t), "")})
+		sc.Threads = append(sc.Threads, ops)
+	}
+	return sc
+}
